@@ -103,22 +103,29 @@ let () =
       mon "C04" c04_holdsb; mon "C04.cause" c04_needs_cause; mon "C04.nil" c04_nil; mon "C04.reports" c04_reports;
       mon "C05.shape" c05_shape; mon "C05.no_dup" c05_no_dup; mon "C06" c06_holdsb; mon "C06.final" c06_final; mon "C06.sub_entry" c06_sub_entry;
       mon "C18.final" c18_holdsb; mon "C18.bounded" c18_bounded;
-      let d = int_of_nat (sup_depth cfg fuel evs) in
       List.iter (fun l -> match String.split_on_char ' ' l with
           | _ :: k :: _ -> Hashtbl.replace kinds k (1 + try Hashtbl.find kinds k with Not_found -> 0)
           | _ -> ()) lines;
-      if d >= List.length evs then incr accepted;
-      if d < List.length evs then begin
+      (* acceptance; a snapshot rejected on the goroutine census ALONE is reported and then replaced by the
+         model's own census, so that later disagreements of the same scenario (which may belong to other
+         properties) are not masked by it *)
+      let rec accept_loop (evs : event list) (budget : int) (first : bool) =
+      let d = int_of_nat (sup_depth cfg fuel evs) in
+      if d >= List.length evs then (if first then incr accepted) else begin
         (* either rejected or out of fuel: distinguish *)
         let (_, ok) = sup_frontier cfg fuel (take d evs) in
-        if not ok then incr incon
+        if not ok then (if first then incr incon)
         else begin
-          incr mism;
+          if first then incr mism;
+          let patched = ref None in
           let diag = match List.nth evs d with
             | ESnap o -> let (sts, _) = sup_accept cfg fuel (take d evs) in
               let dg = int_of_nat (snap_diagnosis cfg sts o) in
-              if dg = 5 then Printf.sprintf " snapdiag=5 census_impl=%d census_model_max=%d" (int_of_nat o.sn_gor)
-                  (int_of_nat (snap_census_max cfg sts o))
+              if dg = 5 then begin
+                let mx = snap_census_max cfg sts o in
+                patched := Some (List.mapi (fun i e -> if i = d then ESnap { o with sn_gor = mx } else e) evs);
+                Printf.sprintf " snapdiag=5 census_impl=%d census_model_max=%d" (int_of_nat o.sn_gor) (int_of_nat mx)
+              end
               else Printf.sprintf " snapdiag=%d" dg
             | _ -> "" in
           Printf.printf "MISMATCH reject %s :: at=%d%s event=%s\n" !cur_hdr d diag (List.nth lines d);
@@ -146,9 +153,14 @@ let () =
                     (String.concat "," (List.map (function None -> "-" | Some x -> string_of_int (int_of_nat x)) sn.sn_smap))
                     sn.sn_run_returned
                 end) sts
-          end
+          end;
+          (match !patched with
+           | Some evs' when budget > 0 -> accept_loop evs' (budget - 1) false
+           | _ -> ())
         end
       end
+      in
+      accept_loop evs 6 true
   in
   (try
      while true do
